@@ -26,6 +26,7 @@ type VerifFixture struct {
 	Height  int64
 	Close   func()
 	WorldTx func(tag string, ts int64) module.Transaction // test.Transaction: world write lock, writes a system variable
+	PriceTx func(price int64, ts int64) module.Transaction // test.Transaction: world write lock, sets the step price
 }
 
 var VerifNewFixture func(genesis string) *VerifFixture
